@@ -188,10 +188,10 @@ pub mod blocks {
     }
 }
 
-inst!(b_twoway_fwd_3_8, [props=C12 xprops=C05+C14 tier=quick cfg=x86std+generic t=1500 role=twoway-fwd uw=@TW:3:8;oracle:5], 4, blocks::twoway::<3, 8>(false, 1));
-inst!(b_twoway_rev_3_8, [props=C12 xprops=C05+C14 tier=quick cfg=x86std+generic t=1500 role=twoway-rev uw=@TW:3:8;oracle:5], 4, blocks::twoway::<3, 8>(true, 1));
-inst!(b_twoway_fwd_n4_8, [props=C12 xprops=C05+C14 tier=quick cfg=x86std t=1800 role=twoway-fwd uw=@TW:4:8;oracle:6], 4, blocks::twoway_n::<4, 8>(false));
-inst!(b_twoway_rev_n4_8, [props=C12 xprops=C05+C14 tier=quick cfg=x86std t=1800 role=twoway-rev uw=@TW:4:8;oracle:6], 4, blocks::twoway_n::<4, 8>(true));
+inst!(b_twoway_fwd_3_8, [props=C12+C03 xprops=C05+C14 tier=quick cfg=x86std+generic t=1500 role=twoway-fwd uw=@TW:3:8;oracle:5], 4, blocks::twoway::<3, 8>(false, 1));
+inst!(b_twoway_rev_3_8, [props=C12+C04 xprops=C05+C14 tier=quick cfg=x86std+generic t=1500 role=twoway-rev uw=@TW:3:8;oracle:5], 4, blocks::twoway::<3, 8>(true, 1));
+inst!(b_twoway_fwd_n4_8, [props=C12+C03 xprops=C05+C14 tier=quick cfg=x86std t=1800 role=twoway-fwd uw=@TW:4:8;oracle:6], 4, blocks::twoway_n::<4, 8>(false));
+inst!(b_twoway_rev_n4_8, [props=C12+C04 xprops=C05+C14 tier=quick cfg=x86std t=1800 role=twoway-rev uw=@TW:4:8;oracle:6], 4, blocks::twoway_n::<4, 8>(true));
 inst!(b_twoway_fwd_4_8, [props=C12 xprops=C05+C14 tier=thorough cfg=x86std t=3600 role=twoway-fwd uw=@TW:4:8;oracle:6], 4, blocks::twoway::<4, 8>(false, 4));
 inst!(b_twoway_rev_4_8, [props=C12 xprops=C05+C14 tier=thorough cfg=x86std t=5400 role=twoway-rev uw=@TW:4:8;oracle:6], 4, blocks::twoway::<4, 8>(true, 4));
 inst!(b_twoway_fwd_5_10, [props=C12 xprops=C05+C14 tier=thorough cfg=x86std t=7200 role=twoway-fwd uw=@TW:5:10;oracle:7], 4, blocks::twoway::<5, 10>(false, 5));
@@ -455,7 +455,7 @@ inst!(m_finder_rev_n2_rk, [props=C04 xprops=C05+C14 tier=quick cfg=x86std+generi
     meta::finder_rev::<2, 15>(0, 15));
 inst!(m_finder_rev_n3_rk, [props=C04 xprops=C05+C14 tier=thorough cfg=x86std t=1800 role=finderrev-rabinkarp uw=@RK;@TWNEW;@TWOFF;with_ranker:6;oracle:6], 3,
     meta::finder_rev::<3, 15>(0, 15));
-inst!(m_finder_rev_n2_tw16, [props=C04 xprops=C05+C14 tier=quick cfg=x86std+generic t=1800 role=finderrev-twoway-routing uw=@RK;@TW:2:17;oracle:6], 3,
+inst!(m_finder_rev_n2_tw16, [props=C04 xprops=C05+C14 tier=thorough cfg=x86std+generic t=1800 role=finderrev-twoway-routing uw=@RK;@TW:2:17;oracle:6], 3,
     meta::finder_rev::<2, 17>(16, 17));
 inst!(m_finder_rev_n3_tw, [props=C04 xprops=C05+C14 tier=thorough cfg=x86std t=5400 role=finderrev-twoway-routing uw=@RK;@TW:3:18;oracle:6], 3,
     meta::finder_rev::<3, 18>(15, 18));
